@@ -28,6 +28,14 @@ function on the select channel's current value, `mux->selected` is that input
 (`strong`; it is `false` only before the select channel was ever propagated,
 because `mux_init` leaves `selected = 0`), and
 `output = spec(select value, input values)`.
+
+Emit side (sections "The emit phase", "The system rows"): `Emu/Emit.lean`
+transcribes `prv_register` / `emit` of `pv/prv.c` and the second loop of
+`bay_propagate`; the theorems relate the lines the PRV callbacks write to
+`View.records` (`emit_step`, `emu_event_emit`, `emu_event_fail_iff`,
+`emu_step_lines`, `emu_history_emit`, `emu_run_emit_driver`).  Task layer
+(section "The task layer"): `Emu/TaskHook.lean`, `emu_event_task`,
+`emu_history_task` — no hook hypothesis.
 -/
 namespace Ovni.Props.C06
 open Ovni.Emu Ovni.Generated
@@ -2084,6 +2092,12 @@ example : ∃ eF rs bF lvsF tvsF freshF, replay exNoHook exNoHook exEmu exHist =
     exact ⟨eF, rs, bF, lvsF, tvsF, freshF, rfl, hiF, hfF, hEF⟩
 
 example : exEmu.shape.regs.length = 32 ∧ (exEmu.shape.regs.map (·.chan)).Nodup := by decide
+
+/-- `prv_register` accepts the whole table: the (file, row, type) keys are
+    distinct, the flags pass `check_flags`, the channels exist. -/
+example : (exEmu.shape.regs.foldl (fun (acc : Except Err (List PrvReg)) r => match acc with
+      | Except.ok rs => prvRegister exEmuBay rs r
+      | Except.error x => Except.error x) (Except.ok [])) = Except.ok exEmu.shape.regs := by decide
 
 /-! ### Non-vacuity of the task-layer theorems
 
